@@ -461,7 +461,13 @@ func (vfs *OrefaFS) Mkdir(name string, perm fs.FileMode) error {
 
 	if !parentOk {
 		for !parentOk {
-			dirName, _ = avfs.SplitAbs(vfs, dirName)
+			upperDir, _ := avfs.SplitAbs(vfs, dirName)
+			if upperDir == dirName {
+				// the volume of the path does not exist.
+				return &fs.PathError{Op: op, Path: name, Err: vfs.err.NoSuchDir}
+			}
+
+			dirName = upperDir
 			parent, parentOk = vfs.nodes[dirName]
 		}
 
@@ -525,7 +531,13 @@ func (vfs *OrefaFS) MkdirAll(path string, perm fs.FileMode) error {
 
 		ds = append(ds, dirName)
 
-		dirName, _ = avfs.SplitAbs(vfs, dirName)
+		upperDir, _ := avfs.SplitAbs(vfs, dirName)
+		if upperDir == dirName {
+			// the volume of the path does not exist.
+			return &fs.PathError{Op: op, Path: path, Err: vfs.err.NoSuchDir}
+		}
+
+		dirName = upperDir
 	}
 
 	// ds goes from the deepest to the shallowest missing directory : create the shallowest first.
